@@ -122,7 +122,12 @@ class Concretiser:
         if k == "enum" or k == "flags":
             name = tname("E" if k == "enum" else "F", t)
             vals = ", ".join("%s: %d" % (s["s"], tokens.from_digits(s["v"]["neg"], s["v"]["mag"])) for s in t["syms"])
-            self._define(name, "%s: !%s {base: %s, values: {%s}}" % (name, k, self.prim(t["base"]), vals))
+            base = self.prim(t["base"])
+            if t.get("balias"):
+                # the base type is named through an alias of the primitive
+                base = "B" + t["base"].capitalize()
+                self._define(base, "%s: %s" % (base, self.prim(t["base"])))
+            self._define(name, "%s: !%s {base: %s, values: {%s}}" % (name, k, base, vals))
             return name
         if k == "rec" and self.style["generics"] != "none" and t["fields"]:
             # the record is spelled as an instance of a generic record whose fields are its type parameters
